@@ -15,6 +15,7 @@ T  which kind a REAL shape is comes from two observers, per shape type the libra
 """
 import json
 import vlib
+import cacheconc
 
 LEVEL = "model_checking"
 
@@ -39,9 +40,16 @@ def run(chk, replay_rec):
         "shape list = harness/cmd/vh/c10.go shapeList(): every shape type named in the property plus obj parts used by examples",
     ]
     only = []
+    if replay_rec and replay_rec["replay"].get("kind") == "cacheconc":
+        cacheconc.run(chk, replay_rec["replay"]["vector"])
+        return
     if replay_rec:
         only = [replay_rec["replay"]["shape"]]
     else:
+        # ---- the one shape that keeps state across Evaluate calls: every interleaving of its two critical
+        # sections and the wrapped Evaluate (CacheConc.tla) forced on the real Cache2D; values must be the
+        # wrapped shape's own under all of them
+        cacheconc.run(chk)
         # ---- M
         gs = (2, 3) if chk.tier == "quick" else (2, 3, 4)
         for kind in ("immutable", "locked"):
